@@ -67,11 +67,15 @@ def layer (adj : Nat → List Nat) (s : Nat) : Nat → List Nat
   | 0 => [s]
   | k + 1 => canon ((layer adj s k).flatMap adj)
 
+/-- the first layer `k, k+1, …` (at most `fuel` of them) that contains `w` -/
+def firstLayer (adj : Nat → List Nat) (s w : Nat) : Nat → Nat → Option Nat
+  | 0, _ => none
+  | fuel + 1, k => if (layer adj s k).contains w then some k else firstLayer adj s w fuel (k + 1)
+
 /-- `(w, d)` for every `w` reachable in `1..n` steps, `d` the first layer containing it; ascending in `w`. -/
 def naiveDists (adj : Nat → List Nat) (s : Nat) (n : Nat) : List (Nat × Nat) :=
-  let layers := (List.range n).map (fun k => (k + 1, layer adj s (k + 1)))
-  let all := canon (layers.flatMap (·.2))
-  all.filterMap (fun w => (layers.find? (fun l => l.2.contains w)).map (fun l => (w, l.1)))
+  (canon ((List.range n).flatMap (fun k => layer adj s (k + 1)))).filterMap
+    (fun w => (firstLayer adj s w n 1).map (fun d => (w, d)))
 
 def naiveReach (adj : Nat → List Nat) (s : Nat) (n : Nat) : List Nat := (naiveDists adj s n).map (·.1)
 
